@@ -57,6 +57,7 @@ fn main() {
         "C13" => props::c13::run(ctx),
         "C15" => props::c15::run(ctx),
         "C16" => props::c16::run(ctx),
+        "C18" => props::c18::run(ctx),
         "C19" => props::c19::run(ctx),
         _ => {
             eprintln!("unknown property {id}");
@@ -91,6 +92,7 @@ fn replay_file(path: &str) -> i32 {
             "C13" => props::c13::replay(case).map_err(|m| format!("{}: {}", m.key, m.what)),
             "C15" => props::c15::replay(case).map_err(|m| format!("{}: {}", m.key, m.what)),
             "C16" => props::c16::replay(case).map_err(|m| format!("{}: {}", m.key, m.what)),
+            "C18" => props::c18::replay(case),
             "C19" => props::c19::replay(case),
             _ => engine_failure("unknown property in replay file"),
         }
